@@ -188,10 +188,16 @@ class Sem:
             return "(py_truthy %s)" % v.t
         if k == "seq":
             return "(> (seq.len %s) 0)" % v.t
+        if k == "vset":
+            return "(> (vs_n %s) 0)" % v.t
         if k == "set":
             return "(exists ((e %s)) (select %s e))" % (S.sort(v.ty.args[0]), v.t)
         if k == "map":
             return self.map_nonempty(v)
+        if k == "qmap":
+            vv = v.ty.args[0]
+            mk, tab, keyf = T.qm_names(vv)
+            return "(exists ((u String)) %s)" % self.cell_present("(select (%s %s) u)" % (tab, v.t), vv)
         if k == "ref":
             cls = v.ty.args[0]
             sc = self.schema_for(cls)
@@ -287,6 +293,11 @@ class Sem:
             raise Unsupported("tuple sort equality")
         if ka == kb and ka in ("set", "map", "seq"):
             return EQ(a.t, b.t)
+        if ka == kb == "oset":
+            return EQ("(os_has %s)" % a.t, "(os_has %s)" % b.t)
+        if ka == kb == "vset":
+            # python set equality: same elements modulo ==/hash
+            return EQ("(vs_has %s)" % a.t, "(vs_has %s)" % b.t)
         if ka != kb:
             # unrelated builtin / library kinds never compare equal
             scalar = {"str", "int", "bool", "Ns", "QN", "Ident", "Lit", "DT", "Flt", "ref"}
@@ -327,23 +338,6 @@ class Sem:
 (define-fun num_flt ((v Val)) Flt (ite ((_ is VBool) v) (flt_of_int (int_of_bool (vbool v)))
    (ite ((_ is VInt) v) (flt_of_int (vint v)) (vfloat v))))""",
         ),
-        "py_eq": (
-            ["lit_eq", "num_key"],
-            """(declare-fun ref_eq (Int Int) Bool)
-(define-fun py_eq ((a Val) (b Val)) Bool
-  (ite (and ((_ is VNone) a) ((_ is VNone) b)) true
-  (ite (and ((_ is VStr) a) ((_ is VStr) b)) (= (vstr a) (vstr b))
-  (ite (and (or ((_ is VBool) a) ((_ is VInt) a)) (or ((_ is VBool) b) ((_ is VInt) b)))
-       (= (ite ((_ is VBool) a) (int_of_bool (vbool a)) (vint a)) (ite ((_ is VBool) b) (int_of_bool (vbool b)) (vint b)))
-  (ite (and (is_num a) (is_num b)) (flt_eq (num_flt a) (num_flt b))
-  (ite (and ((_ is VDT) a) ((_ is VDT) b)) (dt_eq (vdt a) (vdt b))
-  (ite (and (or ((_ is VIdent) a) ((_ is VQN) a)) (or ((_ is VIdent) b) ((_ is VQN) b)))
-       (= (ite ((_ is VQN) a) (qn_uri (vqn a)) (vident a)) (ite ((_ is VQN) b) (qn_uri (vqn b)) (vident b)))
-  (ite (and ((_ is VLit) a) ((_ is VLit) b)) (lit_eq (vlit a) (vlit b))
-  (ite (and ((_ is VRef) a) ((_ is VRef) b)) (ref_eq (vref a) (vref b))
-  (ite (and ((_ is VOther) a) ((_ is VOther) b)) (= (vother a) (vother b))
-  false))))))))))""",
-        ),
         "py_str": (
             [],
             """(declare-fun ref_str (Int) String)
@@ -377,6 +371,21 @@ class Sem:
         if name == "py_str":
             cx.funs_known.add("int_str")
         cx.funs.append(text)
+
+    def need_canon_in(self):
+        """canon_in(l, u, c): the list l of (name, value) pairs has a pair with name URI u and value key c.
+        Opaque except in units that `reveal("canon_in")` (keeps the exists out of every other query)."""
+        cx = self.cx
+        if "canon_in" in cx.funs_known:
+            return
+        cx.funs_known.add("canon_in")
+        tn = cx.sorts.sort(T.Tup(T.QN, T.VAL))
+        cx.sorts.sort(T.Tup(T.STR, T.VAL))
+        cx.funs.append("(declare-fun canon_in ((Seq %s) String Val) Bool)" % tn)
+        if "canon_in" in getattr(self, "reveals", ()):
+            cx.funs.append(
+                "(assert (forall ((l (Seq %s)) (u String) (c Val)) (= (canon_in l u c) (exists ((a QN) (v Val)) "
+                "(and (seq.contains l (seq.unit (mk_%s a v))) (= (qn_uri a) u) (= (ck v) c))))))" % (tn, tn))
 
     # ---------------------------------------------------------------- str()
     def py_str(self, v):
@@ -585,7 +594,10 @@ class Sem:
         if ft == T.PYOBJ:
             return st.bind("$f:%s.%s" % (obj.t, field), val)
         key = (dcls, field)
-        v = self.coerce(val, ft, "for field %s.%s" % (dcls, field))
+        if isinstance(val, PyV):
+            v = self.bi.lower(val, ft, st, "for field %s.%s" % (dcls, field))
+        else:
+            v = self.coerce(val, ft, "for field %s.%s" % (dcls, field))
         arr = self.heap_term(st, key, ft)
         return st.with_heap(key, "(store %s %s %s)" % (arr, obj.t, v.t))
 
@@ -607,16 +619,34 @@ class Sem:
     # ---------------------------------------------------------------- maps / sets
     def map_has(self, m, k):
         S = self.cx.sorts
+        if m.ty.kind == "qmap":
+            vv = m.ty.args[0]
+            mk, tab, keyf = T.qm_names(vv)
+            S.sort(m.ty)
+            cell = "(select (%s %s) %s)" % (tab, m.t, self.qkey(k))
+            return self.cell_present(cell, vv)
         kk, vv = m.ty.args
         kt = self.key_term(k, kk)
+        return self.cell_present("(select %s %s)" % (m.t, kt), vv)
+
+    def cell_present(self, cell, vv):
+        S = self.cx.sorts
         if T.total_map_value(vv):
             if vv.kind == "set":
-                return NOT(EQ("(select %s %s)" % (m.t, kt), S.empty_set(vv.args[0])))
-            return "(> (seq.len (select %s %s)) 0)" % (m.t, kt)
-        return NOT(S.is_none(vv, "(select %s %s)" % (m.t, kt)))
+                return NOT(EQ(cell, S.empty_set(vv.args[0])))
+            if vv.kind == "vset":
+                return "(> (vs_n %s) 0)" % cell
+            return "(> (seq.len %s) 0)" % cell
+        return NOT(S.is_none(vv, cell))
 
     def map_get(self, m, k):
         S = self.cx.sorts
+        if m.ty.kind == "qmap":
+            vv = m.ty.args[0]
+            mk, tab, keyf = T.qm_names(vv)
+            S.sort(m.ty)
+            cell = "(select (%s %s) %s)" % (tab, m.t, self.qkey(k))
+            return SV(cell if T.total_map_value(vv) else S.the(vv, cell), vv)
         kk, vv = m.ty.args
         kt = self.key_term(k, kk)
         if T.total_map_value(vv):
@@ -625,18 +655,103 @@ class Sem:
 
     def map_put(self, m, k, v):
         S = self.cx.sorts
+        if m.ty.kind == "qmap":
+            vv = m.ty.args[0]
+            mk, tab, keyf = T.qm_names(vv)
+            S.sort(m.ty)
+            u = self.qkey(k)
+            vt = self.coerce(v, vv, "map value") if isinstance(v, SV) else self.bi.lower(v, vv, None, "map value")
+            cellv = vt.t if T.total_map_value(vv) else S.some(vv, vt.t)
+            had = self.cell_present("(select (%s %s) %s)" % (tab, m.t, u), vv)
+            if k.ty != T.QN:
+                raise Unsupported("dict keyed by QualifiedName written with a %r key" % (k.ty,))
+            # python keeps the key object that was inserted first
+            keys = ITE(had, "(%s %s)" % (keyf, m.t), "(store (%s %s) %s %s)" % (keyf, m.t, u, k.t))
+            return SV("(%s (store (%s %s) %s %s) %s)" % (mk, tab, m.t, u, cellv, keys), m.ty)
         kk, vv = m.ty.args
         kt = self.key_term(k, kk)
-        vt = self.coerce(v, vv, "map value")
+        vt = self.coerce(v, vv, "map value") if isinstance(v, SV) else self.bi.lower(v, vv, None, "map value")
         if T.total_map_value(vv):
             return SV("(store %s %s %s)" % (m.t, kt, vt.t), m.ty)
         return SV("(store %s %s %s)" % (m.t, kt, S.some(vv, vt.t)), m.ty)
 
+    def qkey(self, k):
+        """key of a QualifiedName-keyed dict: the URI.  An Identifier that is not a QualifiedName hashes
+        differently (hash((uri, class)) vs hash(uri)), so it never finds a QualifiedName key: refused."""
+        if isinstance(k, PyV):
+            raise Unsupported("python-level key")
+        if k.ty == T.QN:
+            return "(qn_uri %s)" % k.t
+        if k.ty.kind == "opt" and k.ty.args[0] == T.QN:
+            return "(qn_uri %s)" % self.cx.sorts.the(T.QN, k.t)
+        raise Unsupported("QualifiedName-keyed dict indexed with %r" % (k.ty,))
+
     def key_term(self, k, kk):
         """canonical key (DESIGN 2.3 Keys): QN/Ident keys are indexed by URI when the
-        declared key type is Ident; Ns keys structurally."""
+        declared key type is Ident; Ns keys structurally; Val keys by ck."""
         if isinstance(k, PyV):
             raise Unsupported("python-level key")
         if kk == T.IDENT and k.ty in (T.QN, T.IDENT):
             return self.uri_of(k)
         return self.coerce(k, kk, "map key").t
+
+    # python sets of record objects -----------------------------------------
+    def need_rkey(self, st):
+        cx = self.cx
+        S = cx.sorts
+        hi = self.heap_term(st, ("ProvRecord", "_identifier"), T.Opt(T.QN))
+        ha = self.heap_term(st, ("ProvRecord", "_attributes"), T.QMap(T.VSET))
+        if "rkeyF" not in cx.funs_known:
+            cx.funs_known.add("rkeyF")
+            probe = SV("r", T.Ref("ProvRecord"))
+            ty = self.coerce(self.dyn_class_attr(probe, "ProvRecord", "_prov_type", st), T.Opt(T.QN))
+            qs = S.sort(T.QMap(T.VSET))
+            self.bi.spec_builtin("attr_set", [SV("m", T.QMap(T.VSET))], {}, st, None)
+            cx.funs.append(
+                "(define-fun rkeyF ((r Int) (hi (Array Int Opt_QN)) (ha (Array Int %s))) RKey (mkRKey %s "
+                "(ite ((_ is none_QN) (select hi r)) none_Str (some_Str (qn_uri (the_QN (select hi r))))) "
+                "(attrset (select ha r))))" % (qs, ty.t))
+            cx.funs.append("(declare-fun reckeysF ((Seq Int) (Array Int Opt_QN) (Array Int %s)) (Array RKey Bool))" % qs)
+            cx.funs.append(
+                "(assert (forall ((l (Seq Int)) (hi (Array Int Opt_QN)) (ha (Array Int %s)) (k RKey)) "
+                "(= (select (reckeysF l hi ha) k) (exists ((i Int)) (and (<= 0 i) (< i (seq.len l)) (= (rkeyF (seq.nth l i) hi ha) k))))))" % qs)
+            cx.funs.append(
+                "(assert (forall ((l (Seq Int)) (hi (Array Int Opt_QN)) (ha (Array Int %s)) (i Int)) "
+                "(=> (and (<= 0 i) (< i (seq.len l))) (select (reckeysF l hi ha) (rkeyF (seq.nth l i) hi ha)))))" % qs)
+        return hi, ha
+
+    def rkey_term(self, ref_t, st):
+        """canonical key of the record object `ref_t` in the heap of st: (type, identifier URI, attribute pairs)"""
+        hi, ha = self.need_rkey(st)
+        return "(rkeyF %s %s %s)" % (ref_t, hi, ha)
+
+    def rec_keys(self, seq, st):
+        """{rkey(r) | r in seq} in the heap of st"""
+        hi, ha = self.need_rkey(st)
+        return "(reckeysF %s %s %s)" % (seq.t, hi, ha)
+
+    def oset_of_seq(self, seq, st):
+        cx = self.cx
+        has = self.rec_keys(seq, st)
+        rep = cx.fresh_sort("osrep", "(Array RKey Int)")
+        n = cx.fresh("osn", T.INT)
+        cx.axioms.append("(forall ((k RKey)) (=> (select %s k) (and (seq.contains %s (seq.unit (select %s k))) (= %s k))))" % (
+            has, seq.t, rep, self.rkey_term("(select %s k)" % rep, st)))
+        cx.axioms.append("(and (>= %s 0) (= (= %s 0) (= %s ((as const (Array RKey Bool)) false))))" % (n.t, n.t, has))
+        osets = cx.__dict__.setdefault("_osets", [])
+        for (h2, n2) in osets:
+            # finite sets: equal sets have equal sizes; a subset of equal size is the whole set (pigeonhole)
+            cx.axioms.append("(=> (= %s %s) (= %s %s))" % (has, h2, n.t, n2))
+            for (a, na, b, nb) in ((has, n.t, h2, n2), (h2, n2, has, n.t)):
+                cx.axioms.append("(=> (and (= %s %s) (forall ((k RKey)) (=> (select %s k) (select %s k)))) (= %s %s))" % (
+                    na, nb, a, b, a, b))
+        osets.append((has, n.t))
+        cx.notes.append("trusted: pigeonhole instance for finite sets built by set(list)")
+        return SV("(mkOSet %s %s %s)" % (has, rep, n.t), T.OSET)
+
+    # python sets of values ------------------------------------------------
+    def vset_in(self, s, v):
+        return "(vs_in %s %s)" % (s.t, self.box(v).t)
+
+    def vset_add(self, s, v):
+        return SV("(vs_add %s %s)" % (s.t, self.box(v).t), T.VSET)
